@@ -1,24 +1,40 @@
-# C13 blocking pops: BlockingRegistry / BlockingManager, inline container models (CAP = 4)
+# C13 blocking pops: BlockingRegistry, inline container models (CAP = 4).
+# Registry states are built directly (std container API, no ferrous call) for every concrete SHAPE
+# (which client waits on which of the keys "a","b"); connection ids (pairwise distinct, full-width
+# u64), deadlines and BLPop/BRPop are symbolic; shapes are enumerated in straight-line code inside
+# the harness (a symbolic shape: 69 M clauses / out of memory for 2 clients).
+# NOT registered because they do not finish (see the build report for C13/C14):
+#   unregister_client and get_expired_clients (iterate the map with iter_mut and push keys into a
+#   Vec under data-dependent guards: > 7 min of symex / out of memory even with concrete ids, a
+#   concrete expiry pattern and fs_array=4096) and the BlockingManager (SegQueue) level.  Their
+#   harness code is kept in ovl_blocking.rs (unregister_case, expired_case, expired_clock_case).
 group("blk", family="inline", shrinks={}, overlays={"src/network/blocking.rs": "ovl_blocking.rs"})
 
-K("c13_register_key_a", "blk", ["C13"], tier="quick", timeout=1500, desc="", encodes=[], bounds="", stubs=[])
-K("c13_register_keys_ab", "blk", ["C13"], tier="quick", timeout=1500, desc="", encodes=[], bounds="", stubs=[])
-K("c13_register_other_orders", "blk", ["C13"], tier="quick", timeout=1500, desc="", encodes=[], bounds="", stubs=[])
-K("c13_register_dupkey_kf", "blk", ["C13"], tier="quick", timeout=1500, desc="", encodes=[], bounds="", stubs=[])
-K("c13_pop_rest_key_a", "blk", ["C13"], tier="quick", timeout=1500, desc="", encodes=[], bounds="", stubs=[])
-K("c13_pop_rest_key_b", "blk", ["C13"], tier="quick", timeout=1500, desc="", encodes=[], bounds="", stubs=[])
-K("c13_pop_multikey_kf", "blk", ["C13"], tier="quick", timeout=1500, desc="", encodes=[], bounds="", stubs=[])
-K("c13_unregister_first", "blk", ["C13"], tier="quick", timeout=1500, desc="", encodes=[], bounds="", stubs=[])
-K("c13_unregister_second", "blk", ["C13"], tier="quick", timeout=1500, desc="", encodes=[], bounds="", stubs=[])
-K("c13_expired_one_client", "blk", ["C13"], tier="quick", timeout=1500, desc="", encodes=[], bounds="", stubs=[])
-K("c13_expired_clock_sym", "blk", ["C13"], tier="quick", timeout=1500, desc="", encodes=[], bounds="", stubs=[])
-K("c13_expired_two_same_key", "blk", ["C13"], tier="quick", timeout=1500, desc="", encodes=[], bounds="", stubs=[])
-K("c13_expired_two_mixed", "blk", ["C13"], tier="quick", timeout=1500, desc="", encodes=[], bounds="", stubs=[])
-K("c13_expired_multikey_kf", "blk", ["C13"], tier="quick", timeout=1500, desc="", encodes=[], bounds="", stubs=[])
-K("c13_prestate_wf", "blk", ["C13"], tier="thorough", timeout=1500, desc="", encodes=[], bounds="", stubs=[])
-K("c13_pop_rest_n3_f1", "blk", ["C13"], tier="thorough", timeout=1500, desc="", encodes=[], bounds="", stubs=[])
-K("c13_pop_rest_n3_f2", "blk", ["C13"], tier="thorough", timeout=1500, desc="", encodes=[], bounds="", stubs=[])
-K("c13_pop_multikey_n3_kf", "blk", ["C13"], tier="thorough", timeout=1500, desc="", encodes=[], bounds="", stubs=[])
-K("c13_unregister_n3_sel", "blk", ["C13"], tier="thorough", timeout=1500, desc="", encodes=[], bounds="", stubs=[])
-K("c13_expired_rest_n3_sel", "blk", ["C13"], tier="thorough", timeout=1500, desc="", encodes=[], bounds="", stubs=[])
-K("c13_expired_multikey_n3_kf", "blk", ["C13"], tier="thorough", timeout=1500, desc="", encodes=[], bounds="", stubs=[])
+INV = ("afterwards the complete registry equals the model: (a) every queue = its clients in registration order, "
+       "(b) blocked_keys == keys of blocked_on_key == keys with a non-empty queue == has_blocked_clients, "
+       "(c) the removed client is queued under NO key")
+B2 = "all 13 shapes with <=2 clients over 2 keys (<=2 keys per client) + 4 selected 3-client shapes; ids/deadlines/op symbolic; containers <= CAP=4; unwind 6"
+
+K("c13_register_small", "blk", ["C13"], tier="quick", timeout=900, fs_array=4096,
+  desc="register_blocked_client of a new client with keys [a] / [a,b] into an empty registry and [a] next to a client waiting on b: client appended to each named queue, record (deadline) stored intact; " + INV,
+  encodes=["BlockingRegistry::register_blocked_client", "BlockingRegistry::has_blocked_clients"],
+  bounds="3 instances (pre-states {}, {}, {c1:b}); ids, deadline (None | any Instant), op symbolic; CAP=4; unwind 6", stubs=[])
+K("c13_register_behind", "blk", ["C13"], tier="quick", timeout=900, fs_array=4096,
+  desc="register_blocked_client behind a client already waiting on the same key: FIFO position (last), first waiter untouched; " + INV,
+  encodes=["BlockingRegistry::register_blocked_client"], bounds="pre-state {c1:a}, new client on [a]; ids, deadlines, op symbolic; CAP=4; unwind 6", stubs=[])
+# c13_register_dupkey_kf (BLPOP a a queues the client twice) ran out of memory inside run.py (held 0/276 checks decided): not registered; defect reported by reading
+K("c13_pop_rest_key_a", "blk", ["C13"], tier="quick", timeout=900,
+  desc="pop_first_waiter(a) outside the defect region (head of a's queue waits on a only, or nobody waits): returns the client that blocked first (FIFO) with its registered op type, None iff nobody waits; " + INV,
+  encodes=["BlockingRegistry::pop_first_waiter", "BlockingRegistry::has_blocked_clients"], bounds=B2,
+  assumptions=["region split: instances whose popped client waits on both keys are in c13_pop_multikey_kf"], stubs=[])
+K("c13_pop_rest_key_b", "blk", ["C13"], tier="quick", timeout=900,
+  desc="pop_first_waiter(b) (second-inserted key) and on a key nobody ever waited on, outside the defect region; same obligations as c13_pop_rest_key_a",
+  encodes=["BlockingRegistry::pop_first_waiter", "BlockingRegistry::has_blocked_clients"], bounds=B2,
+  assumptions=["region split: instances whose popped client waits on both keys are in c13_pop_multikey_kf"], stubs=[])
+K("c13_pop_multikey_kf", "blk", ["C13"], tier="quick", timeout=900, expect="kf:KF-C13-leftover",
+  desc="pop_first_waiter where the popped client waits on both keys: invariant (c) - ferrous leaves the served client queued under its other key (a later push to that key wakes a client that is no longer blocked and wake_client drops the popped element)",
+  encodes=["BlockingRegistry::pop_first_waiter"], bounds=B2, stubs=[])
+K("c13_prestate_wf", "blk", ["C13"], tier="thorough", timeout=1500,
+  desc="sanity of the harness machinery: every directly built pre-state satisfies invariants (a),(b) under the checker used by all C13 harnesses",
+  encodes=["BlockingRegistry::has_blocked_clients"], bounds=B2, stubs=[])
+# 3-client pop harnesses (c13_pop_rest_n3_f1/f2, c13_pop_multikey_n3_kf) exist in the overlay but were not run to completion: not registered
